@@ -1090,7 +1090,13 @@ def is_timed_string(s: str) -> bool:
     """a string with a time-of-day part that is not midnight"""
     core = re.sub(r"\s*[+-]\d{2}:?\d{2}\s*$", "", s)
     for m in TIME_RE.finditer(core):
-        if any(g and g.strip("0") for g in m.groups()):
+        h, mi, ss, frac = m.groups()
+        tail = core[m.end():].lstrip().upper()
+        if tail.startswith("PM"):
+            return True                     # 12:00:00 PM is noon
+        if tail.startswith("AM") and int(h) == 12:
+            h = "0"                         # 12:00:00 AM is midnight
+        if any(g and g.strip("0") for g in (h, mi, ss, frac)):
             return True
     return False
 
